@@ -135,7 +135,8 @@ def gen_specs(tier, seed):
             for params in plist:
                 if all(p < n for p in params) and (dtype != "int" or tier == "thorough" or len(params) <= 2):
                     specs.append(("array", dtype, rl, "none", tuple(params), "none"))
-                    if len(set(rl)) == 1 and tier == "thorough":
+                    if len(set(rl)) == 1 and tier == "thorough" and not (n == 1 and len(params) == 1):
+                        # (a body of one bare parameter is a whole-array parameter: its shape must be concrete)
                         specs.append(("array", dtype, rl, "sym", tuple(params), "none"))
     for dt1, dt2, n2 in (("float", "float", 2), ("int", "float", 3), ("float", "complex", 2), ("int", "int", 4)):
         specs.append(("redeclare", dt1, dt2, n2))
